@@ -285,4 +285,25 @@ def convertDepthwiseToConv (depthMultiplier ifmDepth ofmDepth : Nat) : DwPlan :=
   else if ifmDepth = 1 ∧ ofmDepth = depthMultiplier then .toConv
   else .unsupported
 
+/-! ## 7. Dilation above 2 in software (`fixup_dilation_gt2`) -/
+
+structure DilationOut where
+  hwW : Nat      -- hardware dilation: 1 for an odd dilation, 2 for an even one
+  hwH : Nat
+  scW : Nat      -- the kernel is stretched by dilation / hardware dilation
+  scH : Nat
+  kw : Nat       -- new kernel size (k - 1) * sc + 1
+  kh : Nat
+deriving Repr, DecidableEq, Inhabited
+
+/-- `none`: both dilations ≤ 2, nothing to do -/
+def fixupDilation (kw kh dw dh : Nat) : Option DilationOut :=
+  if dw > 2 ∨ dh > 2 then
+    let hwH := if dh % 2 = 1 then 1 else 2
+    let hwW := if dw % 2 = 1 then 1 else 2
+    let scH := dh / hwH
+    let scW := dw / hwW
+    some ⟨hwW, hwH, scW, scH, (kw - 1) * scW + 1, (kh - 1) * scH + 1⟩
+  else none
+
 end VelaVerif.Rewrites
